@@ -28,8 +28,9 @@ theorem pkgBlocks_sizes : ∀ (toks : List Bytes) (bs : List Loc), pkgBlocks tok
           · exact pkgBlocks_sizes rest bs' hr b hb
       · rw [if_neg hlt] at h; cases h
 
-theorem pkgFileToks_inside (total : Nat) : ∀ (toks : List Bytes) (fs : List FTok) (e : Bool),
-    pkgFileToks total toks = (fs, e) → ∀ f ∈ fs, (f.pos + f.len) % two64 ≤ total
+theorem pkgFileToks_inside (sname : Bytes) (total : Nat) : ∀ (toks : List Bytes) (fs : List FTok) (e : Bool),
+    pkgFileToks sname total toks = (fs, e) → ∀ f ∈ fs, f.pos + f.len ≤ total ∧
+      (f.len > 0 → fixStreamName (pathOf sname f.name) = pathOf sname f.name)
   | [], fs, e, h, f, hf => by simp [pkgFileToks] at h; rw [h.1] at hf; simp at hf
   | t :: rest, fs, e, h, f, hf => by
     unfold pkgFileToks at h
@@ -38,22 +39,30 @@ theorem pkgFileToks_inside (total : Nat) : ∀ (toks : List Bytes) (fs : List FT
     | some g =>
       rw [ht] at h
       simp only [] at h
-      by_cases hgt : (g.pos + g.len) % two64 > total
+      by_cases hgt : g.pos > total ∨ g.len > total - g.pos
       · rw [if_pos hgt] at h; simp only [Prod.mk.injEq] at h; rw [← h.1] at hf; simp at hf
       · rw [if_neg hgt] at h
-        cases hr : pkgFileToks total rest with
-        | mk fs' e' =>
-          rw [hr] at h
-          simp only [Prod.mk.injEq] at h
-          rw [← h.1] at hf
-          rcases List.mem_cons.mp hf with rfl | hf
-          · omega
-          · exact pkgFileToks_inside total rest fs' e' hr f hf
+        by_cases hcl : g.len > 0 ∧ fixStreamName (sname ++ bSlash :: g.name) ≠ sname ++ bSlash :: g.name
+        · rw [if_pos hcl] at h; simp only [Prod.mk.injEq] at h; rw [← h.1] at hf; simp at hf
+        · rw [if_neg hcl] at h
+          cases hr : pkgFileToks sname total rest with
+          | mk fs' e' =>
+            rw [hr] at h
+            simp only [Prod.mk.injEq] at h
+            rw [← h.1] at hf
+            rcases List.mem_cons.mp hf with rfl | hf
+            · refine ⟨by omega, ?_⟩
+              intro hpos
+              cases Classical.em (fixStreamName (sname ++ bSlash :: f.name) = sname ++ bSlash :: f.name) with
+              | inl h' => exact h'
+              | inr h' => exact absurd ⟨hpos, h'⟩ hcl
+            · exact pkgFileToks_inside sname total rest fs' e' hr f hf
 
 /-- whatever the input line, a stream without error has this shape -/
 theorem pkgParseStream_shape (line : Bytes) (h : (pkgParseStream line).err = false) :
     ∃ s : Stream, pkgParseStream line = toPStream s ∧ (∀ b ∈ s.blocks, b.size < two63) ∧
-      ∀ f ∈ s.files, (f.pos + f.len) % two64 ≤ (offsetsFrom 0 s.blocks).getLastD 0 := by
+      ∀ f ∈ s.files, f.pos + f.len ≤ (offsetsFrom 0 s.blocks).getLastD 0 ∧
+        (f.len > 0 → fixStreamName (pathOf s.name f.name) = pathOf s.name f.name) := by
   unfold pkgParseStream at h ⊢
   cases hs : splitOn bSpace line with
   | nil => rw [hs] at h; simp at h
@@ -74,21 +83,22 @@ theorem pkgParseStream_shape (line : Bytes) (h : (pkgParseStream line).err = fal
           by_cases hf : toks.dropWhile isGoLocator = []
           · rw [if_pos hf] at h; simp at h
           · rw [if_neg hf] at h ⊢
-            cases hft : pkgFileToks ((offsetsFrom 0 blocks).getLastD 0) (toks.dropWhile isGoLocator) with
+            cases hft : pkgFileToks (pkgUnescape nm) ((offsetsFrom 0 blocks).getLastD 0) (toks.dropWhile isGoLocator) with
             | mk files e =>
               rw [hft] at h
               simp only [] at h ⊢
               subst h
               exact ⟨⟨pkgUnescape nm, blocks, files⟩, rfl, pkgBlocks_sizes _ _ hpb,
-                pkgFileToks_inside _ _ _ _ hft⟩
+                pkgFileToks_inside _ _ _ _ _ hft⟩
 
-/-- no uint64 wrap-around: the stream and every file token end below 2^64 (finding F10a lives
-outside this condition) -/
-def NoWrap64 (ps : PStream) : Prop :=
-  streamLen ps.blocks < two64 ∧ ∀ f ∈ ps.files, f.pos + f.len < two64
+/-- no uint64 wrap-around of the stream length: the block sizes of the stream add up to less than
+2^64 (finding F10d lives outside this condition; since fix 4f92334 no condition on file tokens is
+needed) -/
+def NoWrap64 (ps : PStream) : Prop := streamLen ps.blocks < two64
 
-/-- stream and file names in the canonical form `fixStreamName` leaves alone (finding F10c lives
-outside this condition) -/
+/-- stream and file names in the canonical form `fixStreamName` leaves alone (since fix b1a09e4
+the parser enforces this for every non-empty token; the condition still matters for zero-length
+tokens and for the stream name) -/
 def CleanNames (ps : PStream) : Prop :=
   ps.name.getLast? ≠ some bSlash ∧
     ∀ f ∈ ps.files, fixStreamName (pathOf ps.name f.name) = pathOf ps.name f.name
@@ -100,15 +110,13 @@ theorem pstream_fit (line : Bytes) (h : (pkgParseStream line).err = false) (hw :
     pkgParseStream line = toPStream (ofPStream (pkgParseStream line)) ∧ PkgFit (ofPStream (pkgParseStream line)) := by
   obtain ⟨s, hs, h1, h2⟩ := pkgParseStream_shape line h
   rw [hs] at hw ⊢
-  obtain ⟨w1, w2⟩ := hw
   have e : ofPStream (toPStream s) = s := rfl
   rw [e]
-  refine ⟨rfl, h1, w1, ?_⟩
+  have w1' : streamLen s.blocks < two64 := hw
+  refine ⟨rfl, h1, w1', ?_⟩
   intro f hf
-  have := h2 f hf
-  have hw2 : f.pos + f.len < two64 := w2 f hf
-  have w1' : streamLen s.blocks < two64 := w1
-  rw [offsetsFrom_eq_plain s.blocks 0 (by omega), plainOffsets_last, Nat.mod_eq_of_lt hw2] at this
+  have := (h2 f hf).1
+  rw [offsetsFrom_eq_plain s.blocks 0 (by omega), plainOffsets_last] at this
   omega
 
 /-- the per-stream loop never panics on a stream without wrap-around, whatever its names -/
